@@ -1,6 +1,7 @@
 /-
   C12 — bridge theorems to the kernels translated from the source (regenerated on every run):
-  the model's force rule is `GenerateCallback._force_callback` / `VerifyCallback._force_callback`.
+  the model's force rule is `GenerateCallback._force_callback` / `VerifyCallback._force_callback`,
+  its interval gate is the condition of `_IntervaledCallback.__call__`.
 -/
 import Torf.Generated.Kernels
 import Torf.Model.Callbacks
@@ -18,5 +19,16 @@ theorem C12_kernel_force_verify (total done : Nat) (k : ItemKind) :
     force true total done k = forceVerify (k == .exc) (k == .mismatch) done total := by
   unfold force forceVerify
   cases k <;> simp <;> omega
+
+/-- `_IntervaledCallback.__call__`: `diff = now - self._prev_call_time; if force or diff >= self._interval`
+    — one step of the model passes the gate exactly when the source's condition holds -/
+theorem C12_kernel_gate (verify : Bool) (interval : Int) (total : Nat) (st : GateSt) (e : Ev) :
+    (stepEv verify interval total st e).calls =
+      if intervalGate (force verify total (st.done + 1) e.kind) (intervalDiff e.now st.prev) interval
+      then st.calls ++ emit verify (st.done + 1) e else st.calls := by
+  unfold stepEv intervalGate intervalDiff
+  by_cases h : (force verify total (st.done + 1) e.kind || decide (e.now - st.prev ≥ interval)) = true
+  · simp only [h, if_true]
+  · simp only [h, if_false, Bool.false_eq_true]
 
 end Torf.C12
